@@ -127,33 +127,89 @@ Definition corr_b (c : case) : bool :=
 
 (* ---- prop_b: oracle on the observed states ---------------------------------------------------------- *)
 
-(** per-instrument specification state: net signed filled quantity, reference price, freshly
-    opened flag, and the documented inputs of the exit-fee estimate (largest quantity reached and
-    entry fees of the open position), all derived from the events and the observed price() *)
-Record spec := mkSpec { sp_net : Q; sp_ref : option Q; sp_fresh : bool; sp_qmax : Q; sp_fin : Q }.
-Definition spec0 : spec := mkSpec 0 None false 0 0.
+(** INDEPENDENT reference price: computed from the delivered market events only, never from the
+    state's own price(). Per instrument a top-of-book register = the delivered L1 updates with the
+    greatest exchange timestamp (the default book counts as time 0 with no levels) and a
+    last-trade register = the priced public trades with the greatest timestamp; with equal
+    timestamps every tied delivery is an acceptable candidate (the code keeps the first, the
+    property allows any). *)
+Notation obook := (option (Q * Q) * option (Q * Q))%type.
+Record mreg := mkMR { r_l1t : Z; r_l1s : list obook; r_tr : option (Z * list Q) }.
+Definition mreg0 : mreg := mkMR 0 [(None, None)] None.
+
+Definition mreg_step (r : mreg) (e : omevent) : mreg :=
+  match e with
+  | OML1 t _ b a =>
+      if Z.ltb (r_l1t r) t then mkMR t [(b, a)] (r_tr r)
+      else if Z.eqb (r_l1t r) t then mkMR t (r_l1s r ++ [(b, a)]) (r_tr r)
+      else r
+  | OMTrade t (Some p) =>
+      match r_tr r with
+      | None => mkMR (r_l1t r) (r_l1s r) (Some (t, [p]))
+      | Some (t0, ps) =>
+          if Z.ltb t0 t then mkMR (r_l1t r) (r_l1s r) (Some (t, [p]))
+          else if Z.eqb t0 t then mkMR (r_l1t r) (r_l1s r) (Some (t, ps ++ [p]))
+          else r
+      end
+  | _ => r
+  end.
+
+(** volume-weighted mid of a two-sided book (books::volume_weighted_mid_price) *)
+Definition ovw_mid (b a : Q * Q) : Q := (fst b * snd a + fst a * snd b) / (snd b + snd a).
+
+(** acceptable reference prices ([None] = "no price") *)
+Definition ref_candidates (r : mreg) : list (option Q) :=
+  flat_map (fun l =>
+    match l with
+    | (Some b, Some a) => [Some (Qred (ovw_mid b a))]
+    | _ => match r_tr r with
+           | Some (_, ps) => map Some ps
+           | None => [None]
+           end
+    end) (r_l1s r).
+
+(** per-instrument specification state: net signed filled quantity, acceptable reference prices,
+    freshly opened flag, the documented inputs of the exit-fee estimate (largest quantity reached
+    and entry fees of the open position) and the market registers *)
+Record spec := mkSpec {
+  sp_net : Q; sp_refs : list Q; sp_fresh : bool; sp_qmax : Q; sp_fin : Q; sp_reg : mreg }.
+Definition spec0 : spec := mkSpec 0 [] false 0 0 mreg0.
 
 Definition spec_fill (g : spec) (f : ofill) : spec :=
   let n := sp_net g in
   let s := osq f in
   let n' := Qred (n + s) in
   if exact n 0 then
-    mkSpec n' (Some (of_price f)) true (of_qty f) (of_fee f)
+    mkSpec n' [of_price f] true (of_qty f) (of_fee f) (sp_reg g)
   else if qcrosses_strictly n s then
     let rem := Qabs' n' in
-    mkSpec n' (Some (of_price f)) true rem (Qred (of_fee f * (rem / of_qty f)))
+    mkSpec n' [of_price f] true rem (Qred (of_fee f * (rem / of_qty f))) (sp_reg g)
   else if Qle_bool 0 (n * s) then
     (* same direction: increase *)
-    mkSpec n' (Some (of_price f)) false (Qmaxq (sp_qmax g) (Qabs' n')) (Qred (sp_fin g + of_fee f))
+    mkSpec n' [of_price f] false (Qmaxq (sp_qmax g) (Qabs' n')) (Qred (sp_fin g + of_fee f)) (sp_reg g)
   else
     (* reduction or exact close *)
-    mkSpec n' (Some (of_price f)) false (sp_qmax g) (sp_fin g).
+    mkSpec n' [of_price f] false (sp_qmax g) (sp_fin g) (sp_reg g).
 
-Definition spec_market (g : spec) (observed_price : option Q) : spec :=
-  match observed_price with
-  | Some p => mkSpec (sp_net g) (Some p) false (sp_qmax g) (sp_fin g)
-  | None => g
-  end.
+Definition somes {A} (l : list (option A)) : list A :=
+  flat_map (fun o => match o with Some a => [a] | None => [] end) l.
+Definition has_none {A} (l : list (option A)) : bool :=
+  existsb (fun o => match o with None => true | Some _ => false end) l.
+
+(** after a market event: the acceptable references are the candidate prices; where "no price"
+    is an acceptable candidate the previous references (and the freshly-opened status) remain
+    acceptable too *)
+Definition spec_market_cands (g : spec) (r : mreg) (cands : list (option Q)) : spec :=
+  let keep := has_none cands in
+  mkSpec (sp_net g) (somes cands ++ if keep then sp_refs g else [])
+         (if keep then sp_fresh g else false) (sp_qmax g) (sp_fin g) r.
+
+(** [indep = true]: candidates from the delivered events only. [indep = false] (a case with a
+    top-of-book event whose last_update_time differs from its exchange time, outside the
+    hypothesis of the independent specification): the observed price() is the reference. *)
+Definition spec_market (indep : bool) (g : spec) (e : omevent) (observed_price : option Q) : spec :=
+  let r := mreg_step (sp_reg g) e in
+  spec_market_cands g r (if indep then ref_candidates r else [observed_price]).
 
 (** the documented estimate on the observed side / average / quantity *)
 Definition oestimate (p : opos) (g : spec) (r : Q) : Q :=
@@ -166,34 +222,38 @@ Definition oestimate (p : opos) (g : spec) (r : Q) : Q :=
 (** verdict for one observed instrument state: 0 fine, 1 violates inside the known class,
     2 violates outside *)
 Definition verdict (t : tols) (g : spec) (o : oistate) : N :=
-  match oi_pos o, sp_ref g with
-  | Some p, Some r =>
-      if near (t_pnl t) (oestimate p g r) (op_pnl_u p) then 0%N
-      else if sp_fresh g && exact (op_pnl_u p) 0 then 1%N else 2%N
-  | Some _, None => 2%N      (* an open position always has a reference price *)
-  | None, _ => 0%N
+  match oi_pos o with
+  | Some p =>
+      if existsb (fun r => near (t_pnl t) (oestimate p g r) (op_pnl_u p)) (sp_refs g) then 0%N
+      else if sp_fresh g && exact (op_pnl_u p) 0 then 1%N
+      else 2%N                  (* also: an open position always has a reference price *)
+  | None => 0%N
   end.
 
 Notation specs := (N -> spec).
 Definition supd (s : specs) (i : N) (v : spec) : specs := fun j => if N.eqb j i then v else s j.
 
-Fixpoint prop_run (t : tols) (s : specs) (evs : list oevent) (obs : list (oistate * option oexit))
-  : list N :=
+Fixpoint prop_run (indep : bool) (t : tols) (s : specs) (evs : list oevent)
+         (obs : list (oistate * option oexit)) : list N :=
   match evs, obs with
   | e :: evs', o :: obs' =>
       let i := oroute e in
       let g := match e with
-               | OMarket _ _ => spec_market (s i) (oi_price (fst o))
+               | OMarket _ m => spec_market indep (s i) m (oi_price (fst o))
                | OFill f => spec_fill (s i) f
                end in
-      verdict t g (fst o) :: prop_run t (supd s i g) evs' obs'
+      verdict t g (fst o) :: prop_run indep t (supd s i g) evs' obs'
   | [], [] => []
   | _, _ => [2%N]
   end.
 
+Definition l1_times_wf (evs : list oevent) : bool :=
+  forallb (fun e => match e with OMarket _ (OML1 t lt _ _) => Z.eqb t lt | _ => true end) evs.
+
 Definition verdicts (c : case) : list N :=
   match c with
-  | CEngine n evs obs fin frame_ok => prop_run (tols15 evs) (fun _ => spec0) evs obs
+  | CEngine n evs obs fin frame_ok =>
+      prop_run (l1_times_wf evs) (tols15 evs) (fun _ => spec0) evs obs
   end.
 
 Definition prop_b (c : case) : bool := forallb (N.eqb 0) (verdicts c).
